@@ -358,7 +358,8 @@ class Bus (objects.DBusObject):
         )
 
     def dbus_GetId(self):
-        return self.uuid
+        # self.uuid is a byte string (it is sent as-is during authentication)
+        return self.uuid.decode('ascii')
 
     def dbus_RequestName(self, name, flags, dbusCaller=None):
         caller = self.clients[dbusCaller]
